@@ -18,6 +18,7 @@
 #include <time.h>
 #include <sched.h>
 #include <sys/types.h>
+#include <sys/select.h>
 #include <sys/socket.h>
 #include <netinet/in.h>
 #include <netinet/tcp.h>
@@ -84,6 +85,7 @@ struct Message {
 	HeaderList headers; // in wire order, values with optional whitespace around them removed
 	std::string body;
 	bool chunked = false, has_length = false;
+	bool ended_by_close = false; // chunked body without a last-chunk: the peer ended the connection at a chunk boundary
 
 	const std::string* find(const std::string& name) const
 	{
@@ -360,6 +362,19 @@ struct Conn {
 		return true;
 	}
 	size_t pending() const { return buf.size() - pos; }
+	// true when bytes are buffered or arrive (or the peer closes) within the given time
+	bool wait_readable(int ms)
+	{
+		if (pending())
+			return true;
+		fd_set r;
+		FD_ZERO(&r);
+		FD_SET(fd, &r);
+		timeval tv;
+		tv.tv_sec = ms / 1000;
+		tv.tv_usec = (ms % 1000) * 1000;
+		return ::select(fd + 1, &r, 0, 0, &tv) > 0;
+	}
 	// bytes that can be read right now without blocking (best effort) -- to notice data sent beyond a message
 	size_t peek_extra()
 	{
@@ -382,7 +397,10 @@ struct Conn {
 	// Reads one message.  Returns "" or a description of what is wrong.  `nothing` is set when the connection ended
 	// (cleanly or not) before the first byte of the message.
 	// A request without Content-Length / chunked has no body; a response without either is read until the peer closes.
-	std::string read_message(Message& m, bool is_response, bool* nothing = 0)
+	// head_only: stop after the empty line (used to look at an interim or early response without waiting for a body).
+	// A 1xx response has no body.  close_ends_chunked: a chunked body may also end with the connection closing where a
+	// chunk-size line would start (a peer that streams until it closes instead of sending the last-chunk).
+	std::string read_message(Message& m, bool is_response, bool* nothing = 0, bool head_only = false, bool close_ends_chunked = false)
 	{
 		m = Message();
 		if (nothing)
@@ -410,13 +428,23 @@ struct Conn {
 				return "whitespace in header name: " + line.substr(0, 80);
 			m.headers.push_back(std::make_pair(name, value));
 		}
+		if (head_only)
+			return "";
+		if (is_response && m.status() >= 100 && m.status() < 200)
+			return "";
 		const std::string* te = m.find("Transfer-Encoding");
 		const std::string* cl = m.find("Content-Length");
 		if (te && http_lower(*te) == "chunked") {
 			m.chunked = true;
 			for (;;) {
-				if (!read_line(line))
+				size_t before = pending();
+				if (!read_line(line)) {
+					if (close_ends_chunked && eof && last_errno == 0 && before == 0 && pending() == 0) {
+						m.ended_by_close = true;
+						return "";
+					}
 					return std::string("chunk size line missing (") + why() + ")";
+				}
 				size_t semi = line.find(';');
 				std::string hx = semi == std::string::npos ? line : line.substr(0, semi);
 				if (hx.empty() || hx.size() > 8 || hx.find_first_not_of("0123456789abcdefABCDEF") != std::string::npos)
